@@ -221,6 +221,7 @@ class World(object):
         self.hit = False
         self.tmpdir = None
         self.np_state = None
+        self.alias = {}         # grabbed buffer -> object whose .values it still is (the library hands that array out)
         self.call_memo = {}     # (call record, digests of everything it refers to) -> first outcome
         self.call_log = []      # call records issued so far (for deliberate re-issue later in the history)
 
@@ -386,7 +387,15 @@ class C05(Profile):
         if k == "buf":
             return True
         if k == "write":
-            return op["b"] in world.bufs
+            return op["b"] in world.bufs and op["b"] not in world.alias
+        if k == "grab":
+            if op["p"] not in world.objs:
+                return False
+            v = world.objs[op["p"]].values
+            # one reference per array is enough: a second name for the same memory would only make the caller's own
+            # writes look like somebody else's
+            return isinstance(v, np.ndarray) and not any(isinstance(b, np.ndarray) and np.shares_memory(b, v)
+                                                         for b in world.bufs.values())
         if k == "kop":
             return op["p"] in world.clusters
         if k in ("mut", "reset", "read"):
@@ -434,6 +443,14 @@ class C05(Profile):
             else:
                 world.bufs[op["b"]] = data
             world.kind[op["b"]] = kind
+            return None
+        if k == "grab":
+            v = world.objs[op["p"]].values
+            if not isinstance(v, np.ndarray):
+                raise TypeError("values is not an array")
+            world.bufs[op["b"]] = v            # the caller keeps a reference to the array that .values handed out
+            world.kind[op["b"]] = "grabbed"
+            world.alias[op["b"]] = op["p"]
             return None
         if k == "write":
             b = world.bufs[op["b"]]
@@ -553,6 +570,8 @@ class C05(Profile):
             return "buf:" + op["kind"]
         if k == "write":
             return "write:" + op["how"]
+        if k == "grab":
+            return "grab"
         if k == "new":
             return "new:" + op["cls"]
         if k == "mut":
@@ -575,13 +594,29 @@ class C05(Profile):
             if op["b"] in world.bases:
                 s.add(world.bases[op["b"]])
             return s, set()
+        if k == "grab":
+            return {op["b"]}, set()
         if k in ("new", "derive", "reset", "mut"):
-            return set(), {op["p"]}
+            # while a grabbed buffer still *is* the object's array, the object's own operations may of course change it
+            return {b for b, p in world.alias.items() if p == op["p"]}, {op["p"]}
         if k == "newk":
             return set(), {"%s.%d" % (op["p"], i) for i in range(16)}
         if k == "kop":
-            return set(), set(world.members.get(op["p"], []))
+            mem = set(world.members.get(op["p"], []))
+            return {b for b, p in world.alias.items() if p in mem}, mem
         return set(), set()
+
+    def _end_aliases(self, world):
+        """A grabbed buffer stops being the object's array as soon as the object has replaced its values; from then on
+        it is an ordinary array of the caller's and nothing the object does may reach it again."""
+        for b, p in list(world.alias.items()):
+            o = world.objs.get(p)
+            v = getattr(o, "values", None)
+            if o is None or not isinstance(v, np.ndarray) or not np.shares_memory(v, world.bufs[b]):
+                del world.alias[b]
+                world.kind[b] = "f8" if world.bufs[b].dtype == np.float64 else world.kind[b]
+                world.origin_of_grab = getattr(world, "origin_of_grab", {})
+                world.origin_of_grab[b] = p
 
     def apply(self, world, op, step):
         st = world.stats
@@ -629,6 +664,7 @@ class C05(Profile):
             agg_add(st["outcomes"], out.exc)
         self._coverage(world, op, out, kind)
         viol = self._check(world, op, out, step, kind, fkind)
+        self._end_aliases(world)
         if viol is None:
             # I6: no operation may leave process-wide NumPy state changed (error handling, print options): a later
             # call with the same arguments would behave differently
@@ -1163,6 +1199,8 @@ class Gen(object):
                 continue
             if (world.kind.get(b) in ("f8_2d", "list_of_arrays")) != two_d:
                 continue
+            if b in world.alias:
+                continue
             if writable and world.kind.get(b) == "tuple":
                 continue
             if len(world.bufs[b]) >= min_n:
@@ -1279,6 +1317,11 @@ class Gen(object):
         if not objs:
             return None
         p = rng.choice(objs)
+        released = [b for b, q in getattr(world, "origin_of_grab", {}).items() if b in world.bufs and b not in world.alias]
+        if released and rng.random() < 0.5:
+            # the undo pattern: an array the object handed out earlier and has replaced since is given back to it
+            b = rng.choice(sorted(released))
+            return {"op": "reset", "p": world.origin_of_grab[b], "src": {"ref": b}} if world.origin_of_grab[b] in world.objs else None
         if self.cfg.get("faults_on") and rng.random() < self.cfg.get("k1_rate", 0.0):
             # K1: a sized argument that cannot become a numeric array, of another length than the current record
             n = len(world.objs[p].values)
@@ -1382,6 +1425,12 @@ class Gen(object):
                 self._queue_siblings()
             return op
         r = (r - pc) / (1 - pc)
+        if r < 0.04 and world.objs:
+            p = rng.choice(sorted(world.objs))
+            if isinstance(world.objs[p].values, np.ndarray) and world.objs[p].values.dtype == np.float64 and self.nb < 10:
+                name = "B%d" % self.nb
+                self.nb += 1
+                return {"op": "grab", "b": name, "p": p}
         if r < 0.10:
             return self.g_buf() if self.nb < 6 else self.g_write(world)
         if r < 0.30:
